@@ -132,6 +132,13 @@ func runC16Peer(x *Exec) {
 			return RowsString(rows)
 		}
 		acked, peerDeletedNodes := 0, 0
+		// A vacuum stopped by a storage error has deleted some of the nodes of versions it condemned but
+		// not yet the versions. A later vacuum with an earlier cutoff counts such a version as retained,
+		// cannot load it and refuses (the safe answer: it cannot tell which nodes that version shares).
+		interrupted := false
+		halfDeleted := func(err error) bool {
+			return interrupted && strings.Contains(err.Error(), "load retained version") && strings.Contains(err.Error(), "NoSuchKey")
+		}
 		// after an acknowledged statement of the writer: every current version is complete in the
 		// bucket, and a fresh empty-cache process reads exactly the rows written so far
 		verify := func(label string) bool {
@@ -242,6 +249,10 @@ func runC16Peer(x *Exec) {
 					if fired && err != nil {
 						// a vacuum that met a storage error may fail; what it leaves behind is checked like everything else
 						x.Probe("writer-vacuum-failed-by-fault")
+						interrupted = true
+						err = nil
+					} else if err != nil && halfDeleted(err) {
+						x.Probe("vacuum-refused-after-interrupted-vacuum")
 						err = nil
 					} else if err == nil {
 						x.Probe("writer-vacuum")
@@ -261,6 +272,10 @@ func runC16Peer(x *Exec) {
 					peer.CloseDB()
 					if err == nil && res != "null" {
 						err = fmt.Errorf("peer vacuum: %s", res)
+					}
+					if err != nil && halfDeleted(err) {
+						x.Probe("vacuum-refused-after-interrupted-vacuum")
+						err = nil
 					}
 					for _, mu := range w.S.Mut[m0:] {
 						if mu.Op == OpDelete && strings.HasPrefix(mu.Key, lay.Node) {
